@@ -4,7 +4,8 @@
    Part C: the per-class rules of round 1 (still true, now subsumed by part A). *)
 From Coq Require Import ZArith QArith Qround Bool List.
 Require Import QV.C07.Model QV.C07.Spec QV.C07.Wf QV.C07.ProofsRange QV.C07.ProofsLoop QV.C07.ProofsAtoms
-               QV.C07.ProofsDur QV.C07.ProofsInt QV.C07.ProofsEnds QV.C07.ProofsIni QV.C07.ProofsFin QV.C07.ProofsPad QV.C07.ProofsWit.
+               QV.C07.ProofsDur QV.C07.ProofsInt QV.C07.ProofsEnds QV.C07.ProofsIni QV.C07.ProofsFin QV.C07.ProofsPad QV.C07.ProofsWit
+               QV.C07.Hist QV.C07.ProofsHist.
 Import ListNotations.
 Open Scope Q_scope.
 
@@ -59,6 +60,40 @@ Print Assumptions C07_pad_holds_end_voltage.
 Theorem C07_atomic_single_piece : forall p rho pcs, atomic p = true -> denote p rho = Some pcs -> (length pcs <= 1)%nat.
 Proof. exact atomic_pieces. Qed.
 Print Assumptions C07_atomic_single_piece.
+
+(* ---- independence of history (round 3; Hist.v = which dictionary OBJECT each class returns / rewrites in place) ----
+   Whatever sequence of queries (integral / initial_values / final_values, on whatever templates, sharing sub-templates or
+   not, repeated or not) is run on one heap of dictionary objects: at the end the k-th answer is still `quant q p` of the
+   template it was asked of — a function of the template alone — and no dictionary that existed before was written to. *)
+Theorem C07_history_independent : forall hs h,
+  let res := run_history hs h in
+  length (fst res) = length hs /\
+  (forall k q p l, nth_error hs k = Some (q, p) -> nth_error (fst res) k = Some l -> hget (snd res) l = quant q p) /\
+  (forall l0, (l0 < length h)%nat -> hget (snd res) l0 = hget h l0).
+Proof. exact history_independent. Qed.
+Print Assumptions C07_history_independent.
+
+(* one query: the returned dictionary object is new, holds `quant q p`, and the query wrote to nothing older — although
+   ForLoopPT and ParallelChannelPT overwrite the dictionary their body returned IN PLACE *)
+Theorem C07_query_pure : forall q p h,
+  let lh := hquery q p h in
+  hget (snd lh) (fst lh) = quant q p /\ (length h <= fst lh)%nat /\
+  forall l0, (l0 < length h)%nat -> hget (snd lh) l0 = hget h l0.
+Proof. exact hquery_pure. Qed.
+Print Assumptions C07_query_pure.
+
+(* ... which is exactly what breaks when an atom memoises its dictionary (seed C07-4, ConstantPT.initial_values as
+   cached_property): ForLoopPT(c, i, (0, 3)).initial_values then ForLoopPT(c, i, (5, 8)).initial_values over the same
+   ConstantPT(1, {A: i}) object c — both answers are ONE dictionary object, the second evaluates to 0, `quant` says 5 *)
+Theorem C07_cached_const_history_dependent :
+  let '(l1, _, _) := c4_first in
+  let '(l2, h2, _) := c4_second in
+  l1 = l2 /\
+  (exists e, dget 1%N (hget h2 l2) = Some e /\ eval env_empty e = Some 0) /\
+  (exists e, dget 1%N (quant QInitial (For c4_i (EC 5) (EC 8) (EC 1) (Const (EC 1) c4_vals))) = Some e /\
+             eval env_empty e = Some 5).
+Proof. exact cached_const_history_dependent. Qed.
+Print Assumptions C07_cached_const_history_dependent.
 
 (* ================================================== Part B ================================================== *)
 (* the unguarded statements of round 1, literally as written then (total evaluation, no well-formedness): *)
